@@ -1,6 +1,7 @@
 package decoder
 
 import (
+	"bytes"
 	"reflect"
 	"unsafe"
 
@@ -195,6 +196,30 @@ func (d *mapDecoder) Decode(ctx *RuntimeContext, cursor, depth int64, p unsafe.P
 	}
 }
 
+// decodePathKey reads an object key and leaves the text as it is: the evaluation
+// of a path hands parts of the text out as results and, for recursive descent,
+// passes over the same text more than once, so a key with an escape is
+// unescaped in a copy.
+func decodePathKey(buf []byte, cursor int64) ([]byte, int64, error) {
+	cursor = skipWhiteSpace(buf, cursor)
+	if buf[cursor] != '"' {
+		if buf[cursor] == nul {
+			return nil, 0, errors.ErrUnexpectedEndOfJSON("object of object", cursor)
+		}
+		return nil, 0, errors.ErrExpected("string for object key", cursor)
+	}
+	end, err := skipString(buf, cursor)
+	if err != nil {
+		return nil, 0, err
+	}
+	key := buf[cursor+1 : end-1]
+	if bytes.IndexByte(key, '\\') >= 0 {
+		key = append([]byte(nil), key...)
+		key = key[:unescapeString(key)]
+	}
+	return key, end, nil
+}
+
 func (d *mapDecoder) DecodePath(ctx *RuntimeContext, cursor, depth int64) ([][]byte, int64, error) {
 	buf := ctx.Buf
 	depth++
@@ -224,8 +249,7 @@ func (d *mapDecoder) DecodePath(ctx *RuntimeContext, cursor, depth int64) ([][]b
 		cursor++
 		return nil, cursor, nil
 	}
-	keyDecoder, ok := d.keyDecoder.(*stringDecoder)
-	if !ok {
+	if _, ok := d.keyDecoder.(*stringDecoder); !ok {
 		return nil, 0, &errors.UnmarshalTypeError{
 			Value:  "string",
 			Type:   reflect.TypeOf(""),
@@ -236,7 +260,7 @@ func (d *mapDecoder) DecodePath(ctx *RuntimeContext, cursor, depth int64) ([][]b
 	}
 	ret := [][]byte{}
 	for {
-		key, keyCursor, err := keyDecoder.decodeByte(buf, cursor)
+		key, keyCursor, err := decodePathKey(buf, cursor)
 		if err != nil {
 			return nil, 0, err
 		}
